@@ -1,4 +1,5 @@
 pub mod c07;
+pub mod c08;
 pub mod c09;
 pub mod c10;
 pub mod c11;
@@ -67,6 +68,11 @@ pub fn run_property(id: &str, opts: &Opts) -> i32 {
             A_PLAN,
             Value::Null,
         ),
+        "C08" => (
+            vec![run_part::<c08::C08>(opts), run_part::<c08::C08WellFormed>(opts)],
+            A_PLAN,
+            Value::Null,
+        ),
         "C09" => (
             vec![run_part::<c09::C09>(opts)],
             &[
@@ -99,6 +105,8 @@ pub fn replay(opts: &Opts, doc: &Value) -> i32 {
     try_part!(paths::C05);
     try_part!(c07::C07);
     try_part!(c07::C07Prefix);
+    try_part!(c08::C08);
+    try_part!(c08::C08WellFormed);
     try_part!(c09::C09);
     try_part!(c10::C10);
     try_part!(c11::C11);
